@@ -1,19 +1,239 @@
-/- T2N.Spec.SpellPt — STUB (to be replaced by the specification of pt spellings) -/
+/-
+  T2N.Spec.SpellPt — Portuguese spellings: cardinals below 10^12 with their accepted variants,
+  ordinals 1..1999 in their four inflections, decimals, digit dictation. Written from Portuguese
+  orthography (Cunha & Cintra, Nova Gramática, «Numerais»; Acordo Ortográfico de 1990) and the
+  repository's tests for /repo/src/lang/pt (see DESIGN.md §3 C01, C04, C05).
+
+  The conjunction `e` is NOT an optional variant in Portuguese; the rule (also the one the library
+  enforces through `smaller_blocked` / the CONJUNCTION flag / `!b.is_free(4)`) is:
+    (R1) inside a 3-digit group, `e` stands between hundreds, tens and units:
+         `duzentos e vinte e um`, `cento e um`, `trinta e dois`; exactly 100 is `cem` (`cem`,
+         `cem mil`, `cem milhões`), otherwise `cento e …`;
+    (R2) between two groups there is no `e`, except before the LAST non-zero group of the number
+         when that group is below 100 or a whole number of hundreds:
+         `mil e um`, `dois mil e vinte`, `mil e novecentos`, `dois milhões e duzentos mil`,
+         but `mil trezentos e vinte e cinco`, `dois mil cento e vinte e cinco`;
+    (R3) long scale (European norm): 10^9 is `mil milhões`; the number of millions (< 10^6) is itself
+         spelled by (R1)–(R2): `cinquenta e três mil e vinte milhões duzentos e quarenta e três mil
+         setecentos e vinte e quatro` — so `e` before the millions group is obligatory there when that
+         group is < 100 or a multiple of 100, whatever follows.
+  `mil` is never preceded by `um`; `um milhão`/`um bilhão` always are.
+
+  Variant axes (choice points; `cp g j`, g = group 0 units … 3 = 10^9):
+    * regional norm, one choice for the whole number                                   (cp 0 2)
+        0 = European:  `dezasseis, dezassete, dezanove, catorze`, 10^9 = `mil milhões`
+        1 = Brazilian: `dezesseis, dezessete, dezenove`, 10^9 = `bilhão/bilhões`
+    * Brazilian only: `catorze` | `quatorze`, per group                                (cp g 3)
+    * Brazilian only: `bilhão/bilhões` | `bilião/biliões` (variant form, VOLP)         (cp 3 7)
+    * gender of the counted noun, one choice for the whole number                      (cp 0 8)
+        masculine | feminine: `um/uma`, `dois/duas`, `duzentos/duzentas` … `novecentos/novecentas`
+        in the units group and in the thousands group (`duas mil`, `duzentas e uma mil`);
+        `milhão`, `bilhão` are masculine nouns, so the groups counting them stay masculine.
+    * `e` also before a NON-last group (g = 1, or g = 2 in the Brazilian form) that is < 100 or a
+      multiple of 100 — absent (standard, R2) | present. This is the usage of the repository's own
+      test `cinquenta e três bilhões e vinte milhões duzentos e quarenta e três mil …`.   (cp g 6)
+    * scale words: `milhão` (exactly one) | `milhões`, `bilhão` | `bilhões` — determined by the
+      number, not a free choice.
+    * ordinals: `septuagésimo` | `setuagésimo` (cp 0 9), `sexcentésimo` | `seiscentésimo` (cp 0 10),
+      `noningentésimo` | `nongentésimo` (cp 0 11); `décimo primeiro` | `undécimo` (cp 0 12),
+      `décimo segundo` | `duodécimo` (cp 0 13), `trecentésimo` | `tricentésimo` (cp 0 14) — the last
+      three second forms are standard (Cunha & Cintra list them as equal alternatives) but unknown to
+      the library's vocabulary: kept here as findings.
+
+  Deliberately NOT included (non-standard, or pre-1990 orthography):
+    * `cinqüenta`, `qüinquagésimo`, `qüingentésimo` (trema abolished by the 1990 agreement; not used
+      in the repository's tests), `tres` without accent;
+    * omission of an obligatory `e` (`sessenta seis`, `dois mil vinte`, `mil novecentos` for 1900):
+      the tests list `sessenta seis` → `60 6`;
+    * `cem e um`, `cento mil`, `um mil` (listed invalid by the tests);
+    * `quatorze` together with European teens.
+
+  Ordinals: every word of a compound ordinal is an ordinal word and all agree in gender and number
+  (`centésimo quadragésimo quinto`, `décimas sextas`). Inflections: 0 masc. sg. (º), 1 fem. sg. (ª),
+  2 masc. pl. (ᵒˢ), 3 fem. pl. (ᵃˢ). The `segundo` of the tests (time unit vs ordinal) is not a
+  lexical exclusion: it is the lone-number threshold at work, so rank 2 is spelled normally.
+-/
 import T2N.Spec.Basic
+
+namespace T2N.Spec.Pt
+
+/-- regional norm: `false` European, `true` Brazilian -/
+def brazilian (v : Var) : Bool := flag v (cp 0 2)
+
+/-- gender of the counted noun -/
+def feminine (v : Var) : Bool := flag v (cp 0 8)
+
+def unitWords : List Word := [w!"zero", w!"um", w!"dois", w!"três", w!"quatro", w!"cinco", w!"seis", w!"sete",
+  w!"oito", w!"nove", w!"dez", w!"onze", w!"doze", w!"treze", w!"catorze", w!"quinze", w!"dezasseis",
+  w!"dezassete", w!"dezoito", w!"dezanove"]
+
+def tensWords : List Word := [[], [], w!"vinte", w!"trinta", w!"quarenta", w!"cinquenta", w!"sessenta",
+  w!"setenta", w!"oitenta", w!"noventa"]
+
+/-- stems of 200..900 (ending `-os` | `-as`) -/
+def hundredStems : List Word := [[], [], w!"duzent", w!"trezent", w!"quatrocent", w!"quinhent", w!"seiscent",
+  w!"setecent", w!"oitocent", w!"novecent"]
+
+/-- 0..19; `fem`: feminine form of 1 and 2 -/
+def unitWord (v : Var) (g : Nat) (fem : Bool) (n : Nat) : Word :=
+  if fem && n == 1 then w!"uma"
+  else if fem && n == 2 then w!"duas"
+  else if brazilian v && n == 14 && flag v (cp g 3) then w!"quatorze"
+  else if brazilian v && n == 16 then w!"dezesseis"
+  else if brazilian v && n == 17 then w!"dezessete"
+  else if brazilian v && n == 19 then w!"dezenove"
+  else unitWords.getD n []
+
+def conj : Word := w!"e"
+
+/-- 1..99 -/
+def below100 (v : Var) (g : Nat) (fem : Bool) (n : Nat) : List Word :=
+  if n < 20 then [unitWord v g fem n]
+  else
+    let t := n / 10
+    let u := n % 10
+    if u == 0 then [tensWords.getD t []]
+    else [tensWords.getD t [], conj, unitWord v g fem u]
+
+/-- 100, 200, …, 900 as the hundreds word of a group whose remainder is `r` -/
+def hundredWord (fem : Bool) (h r : Nat) : Word :=
+  if h == 1 then (if r == 0 then w!"cem" else w!"cento")
+  else hundredStems.getD h [] ++ (if fem then w!"as" else w!"os")
+
+/-- 1..999 (rule R1) -/
+def group (v : Var) (g : Nat) (fem : Bool) (n : Nat) : List Word :=
+  let h := n / 100
+  let r := n % 100
+  let hs : List Word := if h == 0 then [] else [hundredWord fem h r]
+  let link : List Word := if h != 0 && r != 0 then [conj] else []
+  hs ++ link ++ (if r == 0 then [] else below100 v g fem r)
+
+/-- `n` thousand (`mil` is never preceded by `um`) -/
+def thousands (v : Var) (g : Nat) (fem : Bool) (n : Nat) : List Word :=
+  if n == 0 then []
+  else if n == 1 then [w!"mil"]
+  else group v g fem n ++ [w!"mil"]
+
+/-- does a group of value `x`, standing last, take `e` before it (rule R2)? -/
+def takesE (x : Nat) : Bool := x != 0 && (x < 100 || x % 100 == 0)
+
+def billionWord (v : Var) (plural : Bool) : Word :=
+  if flag v (cp 3 7) then (if plural then w!"biliões" else w!"bilião")
+  else (if plural then w!"bilhões" else w!"bilhão")
+
+def millionWord (plural : Bool) : Word := if plural then w!"milhões" else w!"milhão"
+
+/-- cardinal, `n < 10^12` -/
+def cardinal (v : Var) (n : Nat) : List Word :=
+  if n == 0 then [w!"zero"]
+  else
+    let g3 := n / 1000000000 % 1000
+    let g2 := n / 1000000 % 1000
+    let g1 := n / 1000 % 1000
+    let g0 := n % 1000
+    let br := brazilian v
+    let fem := feminine v
+    -- 10^9 group: `… bilhões` (Brazilian) or the thousands of the number of millions (European, R3)
+    let p3 : List Word :=
+      if g3 == 0 then []
+      else if br then group v 3 false g3 ++ [billionWord v (g3 != 1)]
+      else thousands v 3 false g3
+    -- `e` before the millions group
+    let e2 : Bool := g3 != 0 && takesE g2 &&
+      (if br then (g1 == 0 && g0 == 0) || flag v (cp 2 6) else true)
+    -- millions group with its scale word; in the European form the scale word also closes `… mil`
+    let p2 : List Word :=
+      if g2 == 0 then (if g3 != 0 && !br then [millionWord true] else [])
+      else group v 2 false g2 ++ [millionWord (!(g2 == 1 && (br || g3 == 0)))]
+    let hi2 := p3 ++ (if e2 then [conj] else []) ++ p2
+    let e1 : Bool := !hi2.isEmpty && takesE g1 && (g0 == 0 || flag v (cp 1 6))
+    let p1 := thousands v 1 fem g1
+    let hi := hi2 ++ (if e1 then [conj] else []) ++ p1
+    let e0 : Bool := !hi.isEmpty && takesE g0
+    hi ++ (if e0 then [conj] else []) ++ (if g0 == 0 then [] else group v 0 fem g0)
+
+/-! ### ordinals -/
+
+def ordUnitStems : List Word := [[], w!"primeir", w!"segund", w!"terceir", w!"quart", w!"quint", w!"sext",
+  w!"sétim", w!"oitav", w!"non"]
+
+def ordTensStems : List Word := [[], w!"décim", w!"vigésim", w!"trigésim", w!"quadragésim", w!"quinquagésim",
+  w!"sexagésim", w!"septuagésim", w!"octogésim", w!"nonagésim"]
+
+def ordHundredStems : List Word := [[], w!"centésim", w!"ducentésim", w!"trecentésim", w!"quadringentésim",
+  w!"quingentésim", w!"sexcentésim", w!"septingentésim", w!"octingentésim", w!"noningentésim"]
+
+def ordTensStem (v : Var) (t : Nat) : Word :=
+  if t == 7 && flag v (cp 0 9) then w!"setuagésim" else ordTensStems.getD t []
+
+def ordHundredStem (v : Var) (h : Nat) : Word :=
+  if h == 3 && flag v (cp 0 14) then w!"tricentésim"
+  else if h == 6 && flag v (cp 0 10) then w!"seiscentésim"
+  else if h == 9 && flag v (cp 0 11) then w!"nongentésim"
+  else ordHundredStems.getD h []
+
+/-- ending of every word of the ordinal for inflection `i` -/
+def ordEnding (i : Nat) : Word :=
+  match i with
+  | 0 => w!"o" | 1 => w!"a" | 2 => w!"os" | _ => w!"as"
+
+/-- marker on the digit form -/
+def ordMarker (i : Nat) : Word :=
+  match i with
+  | 0 => w!"º" | 1 => w!"ª" | 2 => w!"ᵒˢ" | _ => w!"ᵃˢ"
+
+/-- ordinal stems of `1 ≤ n ≤ 1999`: thousand, hundreds, tens, units, each an ordinal word -/
+def ordinalStems (v : Var) (n : Nat) : List Word :=
+  let k := n / 1000
+  let h := n / 100 % 10
+  let t := n / 10 % 10
+  let u := n % 10
+  (if k == 0 then [] else [w!"milésim"]) ++
+  (if h == 0 then [] else [ordHundredStem v h]) ++
+  (if t == 1 && u == 1 && flag v (cp 0 12) then [w!"undécim"]
+   else if t == 1 && u == 2 && flag v (cp 0 13) then [w!"duodécim"]
+   else
+    (if t == 0 then [] else [ordTensStem v t]) ++
+    (if u == 0 then [] else [ordUnitStems.getD u []]))
+
+def ordinal (v : Var) (n i : Nat) : List Word :=
+  (ordinalStems v n).map (· ++ ordEnding i)
+
+/-! ### decimals and dictation -/
+
+def sepWord : Word := w!"vírgula"
+def decMark : Char := ','
+
+def zeroWord : Word := w!"zero"
+
+/-- value of a digit string -/
+def digitsValue (ds : List Nat) : Nat := ds.foldl (fun acc d => 10 * acc + d) 0
+
+/-- fraction digits: every leading zero is said `zero`, the remaining digits are read as one cardinal -/
+def fraction (v : Var) (ds : List Nat) : List Word :=
+  let zs := ds.takeWhile (· == 0)
+  let rest := ds.dropWhile (· == 0)
+  zs.map (fun _ => zeroWord) ++ (if rest.isEmpty then [] else cardinal v (digitsValue rest))
+
+def digitWord (d : Nat) : Word := unitWords.getD d []
+
+end T2N.Spec.Pt
 
 namespace T2N.Spec.Pt
 
 def speller : Speller where
   code := "pt"
-  cardinal := fun _ _ => []
-  nInfl := 0
-  ordMax := 0
-  ordinal := fun _ _ _ => none
-  sepWord := []
-  decMark := ','
-  fraction := fun _ _ => []
-  zeroWord := []
-  digitWord := fun _ => []
-  conj := []
+  cardinal := cardinal
+  nInfl := 4
+  ordMax := 1999
+  ordinal := fun v n i =>
+    if n == 0 || n > 1999 || i ≥ 4 then none
+    else some (ordinal v n i, ordMarker i)
+  sepWord := sepWord
+  decMark := decMark
+  fraction := fraction
+  zeroWord := zeroWord
+  digitWord := digitWord
+  conj := conj
 
 end T2N.Spec.Pt
